@@ -92,6 +92,12 @@ var guardSpecs = []guardSpec{
 	{"jsonErrorGuard", "pkg/metricscollector/v1beta1/file-metricscollector/file-metricscollector.go", "parseLogsInJsonFormat", `fmt.Errorf("%w: %s", errParseJson`, lpAtoms, lpParams, true},
 	{"jsonUseTsGuard", "pkg/metricscollector/v1beta1/file-metricscollector/file-metricscollector.go", "parseLogsInJsonFormat", "stmt:timestamp = parsedTimestamp", lpAtoms, lpParams, true},
 	{"jsonAppendGuard", "pkg/metricscollector/v1beta1/file-metricscollector/file-metricscollector.go", "parseLogsInJsonFormat", "append(mlogs, &v1beta1.MetricLog{", lpAtoms, lpParams, true},
+	{"obsUseLatestGuard", "pkg/controller.v1beta1/suggestion/suggestionclient/suggestionclient.go", "convertTrialObservation", "stmt:value = m.Latest", coAtoms, coParams, true},
+	{"obsUseMinGuard", "pkg/controller.v1beta1/suggestion/suggestionclient/suggestionclient.go", "convertTrialObservation", "stmt:value = m.Min", coAtoms, coParams, true},
+	{"obsUseMaxGuard", "pkg/controller.v1beta1/suggestion/suggestionclient/suggestionclient.go", "convertTrialObservation", "stmt:value = m.Max", coAtoms, coParams, true},
+	{"obsAppendGuard", "pkg/controller.v1beta1/suggestion/suggestionclient/suggestionclient.go", "convertTrialObservation", "append(resObservation.Metrics", coAtoms, coParams, true},
+	{"trialSentGuard", "pkg/controller.v1beta1/suggestion/suggestionclient/suggestionclient.go", "ConvertTrials", "append(trialsRes, trial)", coAtoms, coParams, true},
+	{"trialConditionSentGuard", "pkg/controller.v1beta1/suggestion/suggestionclient/suggestionclient.go", "ConvertTrials", "stmt:trial.Status.Condition = convertTrialConditionType(", coAtoms, coParams, true},
 	{"addFinalizerGuard", "pkg/controller.v1beta1/trial/trial_controller_util.go", "needUpdateFinalizers", "append(pendingFinalizers, cleanMetricsFinalizer)", finAtoms, finParams, false},
 	{"removeFinalizerGuard", "pkg/controller.v1beta1/trial/trial_controller_util.go", "needUpdateFinalizers", "stmt:finalizers := []string{}", finAtoms, finParams, false},
 	{"dbCleanupGuard", "pkg/controller.v1beta1/trial/trial_controller_util.go", "updateFinalizers", "r.DeleteTrialObservationLog(instance)", finAtoms, finParams, false},
@@ -216,6 +222,17 @@ var lpAtoms = map[string]string{
 	"exist": "exist#", `parsedTimestamp == ""`: "tsUnusable",
 }
 var lpParams = []string{"hasKeyword", "noSpace", "parseFailed", "shortMatch", "otherName", "objectiveReported", "emptyLine", "exist1", "exist2", "tsUnusable"}
+
+var coAtoms = map[string]string{
+	"observation != nil": "obsSet", "observation.Metrics != nil": "metricsSet",
+	"strategy == commonapiv1beta1.ExtractByMin": "byMin", "strategy == commonapiv1beta1.ExtractByMax": "byMax",
+	"strategy == commonapiv1beta1.ExtractByLatest": "byLatest", "m.Min == consts.UnavailableMetricValue": "minUnavailable",
+	"m.Max == consts.UnavailableMetricValue": "maxUnavailable", "t.IsMetricsUnavailable()": "metricsUnavailable",
+	"t.IsObservationAvailable()": "observationAvailable", "t.IsEarlyStopped()": "earlyStopped",
+	"t.Spec.Labels != nil": "labelsSet", "t.Spec.Objective.Goal != nil": "goalSet", "len(t.Status.Conditions) > 0": "hasConditions",
+}
+var coParams = []string{"obsSet", "metricsSet", "byMin", "byMax", "byLatest", "minUnavailable", "maxUnavailable", "metricsUnavailable",
+	"observationAvailable", "earlyStopped", "labelsSet", "goalSet", "hasConditions"}
 
 var finAtoms = map[string]string{
 	"trial.ObjectMeta.DeletionTimestamp.IsZero()": "(!deleting)", "instance.ObjectMeta.DeletionTimestamp.IsZero()": "(!deleting)",
@@ -409,6 +426,8 @@ func (g *guardWalker) walk(stmts []ast.Stmt, pc string) string {
 				} else {
 					g.unsupported = append(g.unsupported, fmt.Sprintf("%T", x))
 				}
+			} else {
+				g.skipped(x)
 			}
 		case *ast.ForStmt:
 			if g.containsCall(x) {
@@ -417,14 +436,26 @@ func (g *guardWalker) walk(stmts []ast.Stmt, pc string) string {
 				} else {
 					g.unsupported = append(g.unsupported, fmt.Sprintf("%T", x))
 				}
+			} else {
+				g.skipped(x)
 			}
 		case *ast.BranchStmt:
 			if g.spec.enterLoops && (x.Tok == token.CONTINUE || x.Tok == token.BREAK) {
 				return "false"
 			}
-		case *ast.SwitchStmt, *ast.TypeSwitchStmt, *ast.SelectStmt:
+		case *ast.SwitchStmt:
+			// an expression switch holding the site: an if-chain over its clauses (`tag == v` looked up as an atom; the
+			// default clause runs when no other clause matches); `fallthrough` / `break` inside are not supported
+			if g.containsCall(x) {
+				factor = gAnd(factor, g.walkSwitch(x, cur))
+			} else {
+				g.skipped(x)
+			}
+		case *ast.TypeSwitchStmt, *ast.SelectStmt:
 			if g.containsCall(x) {
 				g.unsupported = append(g.unsupported, fmt.Sprintf("%T", x))
+			} else {
+				g.skipped(x)
 			}
 		case *ast.ReturnStmt:
 			if g.containsCall(x) {
@@ -438,6 +469,87 @@ func (g *guardWalker) walk(stmts []ast.Stmt, pc string) string {
 		}
 	}
 	return factor
+}
+
+// skipped: a loop / switch / select that does not hold the site is not walked; a `return` inside it would change the reach
+// condition of every later site, so it is reported (pending: attached to the next site found, dropped if none follows)
+func (g *guardWalker) skipped(n ast.Node) {
+	ast.Inspect(n, func(m ast.Node) bool {
+		switch m.(type) {
+		case *ast.FuncLit:
+			return false
+		case *ast.ReturnStmt:
+			g.unknown = append(g.unknown, fmt.Sprintf("return inside skipped %T", n))
+			return false
+		}
+		return true
+	})
+}
+
+// walkSwitch: the factor under which control leaves an expression switch at its end
+func (g *guardWalker) walkSwitch(x *ast.SwitchStmt, cur string) string {
+	bad := false
+	ast.Inspect(x.Body, func(n ast.Node) bool {
+		switch b := n.(type) {
+		case *ast.ForStmt, *ast.RangeStmt, *ast.FuncLit:
+			return false
+		case *ast.BranchStmt:
+			if b.Tok == token.BREAK || b.Tok == token.FALLTHROUGH {
+				bad = true
+			}
+		}
+		return true
+	})
+	if bad {
+		g.unsupported = append(g.unsupported, "switch with break/fallthrough")
+		return "true"
+	}
+	tag := ""
+	if x.Tag != nil {
+		tag = nodeSrc(g.fset, x.Tag)
+	}
+	type clause struct {
+		c    string
+		body []ast.Stmt
+	}
+	var clauses []clause
+	var deflt *ast.CaseClause
+	for _, st := range x.Body.List {
+		cc := st.(*ast.CaseClause)
+		if cc.List == nil {
+			deflt = cc
+			continue
+		}
+		c := "false"
+		for _, e := range cc.List {
+			var one string
+			if tag == "" {
+				one = g.cond(e)
+			} else {
+				src := tag + " == " + nodeSrc(g.fset, e)
+				a, ok := g.atom(src)
+				if !ok {
+					g.unknown = append(g.unknown, src)
+					a = "unknownAtom"
+				}
+				one = a
+			}
+			c = gOr(c, one)
+		}
+		clauses = append(clauses, clause{c, cc.Body})
+	}
+	none, out := "true", "false"
+	for _, cl := range clauses {
+		reach := gAnd(none, cl.c)
+		out = gOr(out, gAnd(reach, g.walk(cl.body, gAnd(cur, reach))))
+		none = gAnd(none, "(!"+cl.c+")")
+	}
+	if deflt != nil {
+		out = gOr(out, gAnd(none, g.walk(deflt.Body, gAnd(cur, none))))
+	} else {
+		out = gOr(out, none)
+	}
+	return out
 }
 
 func extractGuards(repo, out string) error {
